@@ -1244,7 +1244,7 @@ def _stage_why(stage, outs):
   return f'undecided in {stage}: {[(x.short()[:120], x.msg[:80], x.line) for x in outs]}'
 
 
-def _pipeline_multi(ctx, R, graphs, rules, data=None):
+def _pipeline_multi(ctx, R, graphs, rules, data=None, via_modifier=False):
   """Runs calibrate (one signature per subgraph, in order) -> plan ->
   instructions -> rewrite on a label model made of `graphs`. Returns
   (model Obj, None) or (None, reason)."""
@@ -1409,6 +1409,25 @@ def _pipeline_multi(ctx, R, graphs, rules, data=None):
   if len(o2) != 1 or o2[0].kind != 'return':
     return None, _stage_why('plan generation', o2)
   tig = Obj(TIG, {'TensorGraphInfo': c19._Ctor(f'{TIG}.TensorGraphInfo', ['tensor_id', 'subgraph_id', 'producer', 'consumers']), 'flatbuffer_model': None, '_tensor_name_to_graph_info': {}})  # pylint: disable=protected-access
+  if via_modifier:
+    # through ModelModifier.modify_model itself: the source bytes are "parsed" into the label model (with one signature
+    # per subgraph), the serialisers hand the transformed object back
+    src_model = model()
+    src_model.fields['signatureDefs'] = [
+        Obj('x:SignatureDefT', {'signatureKey': f's{gi}'.encode(), 'subgraphIndex': gi,
+                                'inputs': [Obj('x:TensorMapT', {'name': f'in{k}'.encode(), 'tensorIndex': t}) for k, t in enumerate(g_[2])],
+                                'outputs': [Obj('x:TensorMapT', {'name': f'out{k}'.encode(), 'tensorIndex': t}) for k, t in enumerate(g_[3])]})
+        for gi, g_ in enumerate(graphs)]
+    MMC = 'model_modifier:ModelModifier'
+    it.hooks['flatbuffer_utils.read_model_from_bytearray'] = lambda a, k: src_model
+    it.hooks[f'{MMC}._process_constant_map'] = lambda a, k: 0
+    it.hooks[f'{MMC}._serialize_small_model'] = lambda a, k: a[1]
+    it.hooks[f'{MMC}._serialize_large_model'] = lambda a, k: a[1]
+    mmo = Obj(MMC, {'_model_content': 'SOURCE-BYTES', '_constant_map': [], '_transformation_instruction_generator': tig, '_transformation_performer': it.construct(PERF, [], {}, None, 0)})
+    om = it.outcomes(ctx.repo.func(f'{MMC}.modify_model'), [mmo, pg.fields['model_quant_results']], copy_args=False)
+    if len(om) != 1 or om[0].kind != 'return' or not isinstance(om[0].value, Obj):
+      return None, _stage_why('modify_model', om)
+    return om[0].value, None
   o3 = it.outcomes(q2i, [tig, pg.fields['model_quant_results'], m], copy_args=False)
   if len(o3) != 1 or o3[0].kind != 'return':
     return None, _stage_why('instruction generation', o3)
@@ -1770,6 +1789,49 @@ def rule_weight_bias_parameters(ctx, R: str):
     want_b = [xs[0] * w for w in ws] if len(ws) > 1 else [xs[0] * ws[0]] * len(bs)
     ctx.check(R, close(bs, want_b) and all(z == 0 for z in bz) and tv(T[bi].fields['type']) == TT['INT32'], tg.node, tg, f'{label}: bias scale {bs}',
               f'the bias must be INT32 with zero point 0 and scale input scale x weight scale = {want_b}')
+
+
+# --------------------------------------- signatures through ModelModifier itself
+def rule_signature_contract(ctx, R: str):
+  """C02, signature clause, through ModelModifier.modify_model (parse -> deep copy -> instructions -> rewrite ->
+  signature update -> serialise): after quantization every signature input / output denotes the same tensor as the
+  corresponding subgraph input / output, for one and two subgraphs, with the model outputs covered or not."""
+  rs = ctx.rule(R, 'through modify_model: every signature input / output is the corresponding subgraph input / output after the rewrite (one and two subgraphs)', floor=1)
+  mm = ctx.repo.func('model_modifier:ModelModifier.modify_model')
+  ctx.instance(R)
+  A = ([('ax', 0), ('aw', 1, (2, 2)), ('ah', 0), ('aout', 0)], [('afc', 'fc', [0, 1], [2]), ('asm', 'sm', [2], [3])], [0], [3, 2])
+  B = ([('bx', 0), ('bw', 1, (2, 2)), ('bout', 0)], [('bfc', 'fc', [0, 1], [2])], [0], [2])
+  cases = [
+      ('one subgraph, static range, model outputs float', [A], [('.*', '*', 'srq')]),
+      ('one subgraph, only the FULLY_CONNECTED static', [A], [('.*', 'fc', 'srq')]),
+      ('two subgraphs, static range', [A, B], [('.*', '*', 'srq')]),
+      ('two subgraphs (other order), static range', [B, A], [('.*', '*', 'srq')]),
+      ('two subgraphs, weight-only', [A, B], [('.*', 'fc', 'wonly')]),
+  ]
+  rs.exhaustive = True
+  for cname, graphs, rules in cases:
+    m, why = _pipeline_multi(ctx, R, graphs, rules, via_modifier=True)
+    label = f'case "{cname}"'
+    if m is None:
+      ctx.check(R, False, mm.node, mm, label, why)
+      continue
+    problems = []
+    sigs = m.fields.get('signatureDefs') or []
+    if len(sigs) != len(graphs):
+      problems.append(f'{len(sigs)} signatures, expected {len(graphs)}')
+    for sd in sigs:
+      f = sd.fields
+      gi = f['subgraphIndex']
+      sg = m.fields['subgraphs'][gi]
+      outs = [t.fields['tensorIndex'] for t in f['outputs']]
+      ins = [t.fields['tensorIndex'] for t in f['inputs']]
+      if outs != list(sg.fields['outputs']):
+        problems.append(f'signature {f["signatureKey"]!r}: outputs denote tensors {outs}, the subgraph outputs are {sg.fields["outputs"]} (a signature runner returns a stale tensor)')
+      if ins != list(sg.fields['inputs']):
+        problems.append(f'signature {f["signatureKey"]!r}: inputs denote tensors {ins}, the subgraph inputs are {sg.fields["inputs"]}')
+      if [t.fields['name'] for t in f['outputs']] != [f'out{k}'.encode() for k in range(len(outs))] or f['signatureKey'] != f's{gi}'.encode():
+        problems.append(f'signature {f["signatureKey"]!r}: key or argument names changed')
+    ctx.check(R, not problems, mm.node, mm, label, '; '.join(problems[:3]))
 
 
 # ------------------------------------------- tied constants through the pipeline
